@@ -97,6 +97,10 @@ v("m3-ctx-swap-str-int","C07","config/eval/context.go","					\"str\": function.S
 v("m3-ctx-upper-lower","C07","config/eval/context.go","					\"upper\": function.UpperS,\n					\"lower\": function.LowerS,","					\"upper\": function.LowerS,\n					\"lower\": function.UpperS,","R114","break","upper and lower swapped")
 v("m3-setfunc-dropcase","C07","config/eval/context.go","	case func(int) int, func(int) bool, func(int) float64, func(int) *string:","	case func(int) int, func(int) bool, func(int) *string:","R103","break","an executable signature can no longer be registered")
 
+v("m6-int-compare-narrowed","C03","internal/icolumn/column.go","func (c Comparable) Compare(i, j uint32) column.CompareResult {\n	x, y := c.data[i], c.data[j]","func (c Comparable) Compare(i, j uint32) column.CompareResult {\n	x, y := int32(c.data[i]), int32(c.data[j])","R148","break","cells compared through a 32-bit copy")
+v("m6-hash-size-dependent","C05","internal/grouper/grouper.go","	return uint32(hashVal)\n}","	return uint32(hashVal) ^ uint32(len(t.entries))\n}","R99","break","the stored hash depends on the table size")
+v("m6-like-break","C17","internal/ecolumn/filters.go","		if matcher.Matches(v) {\n			bset.set(enumVal(i))\n		}","		if matcher.Matches(v) {\n			bset.set(enumVal(i))\n			break\n		}","R145","break","first hit ends the collection of matching values")
+
 # ---- benign refactors: must stay silent ----
 v("b-kernel-index-load","C02","internal/fcolumn/filters_gen.go","func lt(index index.Int, column []float64, comp float64, bIndex index.Bool) {\n	for i, x := range bIndex {\n		if !x {\n			bIndex[i] = column[index[i]] < comp\n		}\n	}\n}","func lt(index index.Int, column []float64, comp float64, bIndex index.Bool) {\n	for i := range bIndex {\n		if bIndex[i] {\n			continue\n		}\n		bIndex[i] = column[index[i]] < comp\n	}\n}","","benign","load the accumulator by index, guard as continue")
 v("b-filter-prealloc","C02","internal/index/index.go","	result := make(Int, 0, count)\n	for i, b := range bIx {\n		if b {\n			result = append(result, ix[i])\n		}\n	}\n\n	return result","	result := make(Int, count)\n	n := 0\n	for i, b := range bIx {\n		if b {\n			result[n] = ix[i]\n			n++\n		}\n	}\n\n	return result","","benign","preallocate and fill by counter")
